@@ -10,6 +10,11 @@ register_class("AbstractContinuumSampler", "pygamma_agreement/sampler.py")
 register_class("StatisticalContinuumSampler", "pygamma_agreement/sampler.py", ["AbstractContinuumSampler"])
 register_class("ShuffleContinuumSampler", "pygamma_agreement/sampler.py", ["AbstractContinuumSampler"])
 
+from pyvc.contract import global_ghost   # noqa: E402
+# pt(x) is TRUE for every real x: a trigger for clauses quantified over points of the real line (arithmetic atoms give E-matching nothing
+# to instantiate on; MBQI alone does not cope with them)
+global_ghost("pt", "Real -> Bool", ["forall([(x, Real)], pt(x), pat=[pt(x)])"])
+
 # ------------------------------------------------------------------------------------------ _remove_pivot_segment  (C16 W4)
 # pointwise over the reals: a point (other than the two end points of the exclusion zone) is covered by the result iff it was
 # covered by the input and lies outside (pivot - dist, pivot + dist)
@@ -23,18 +28,23 @@ contract(F + "ShuffleContinuumSampler._remove_pivot_segment",
          requires=["dist > 0", "forall(i, 0, len(segments), segments[i].start < segments[i].end)"],
          ensures=[cl("forall([(x, Real)], implies(not edge(x), cover(result, x) == (cover(old(segments), x) and not zone(x))))",
                      "C16", name="exactly-the-zone-is-removed"),
-                  cl("forall(i, 0, len(result), result[i].start <= result[i].end)", "C16", name="segments-well-formed")],
+                  cl("forall([(x, Real)], implies(cover(result, x), cover(old(segments), x) and not zone(x)))", "C16",
+                     name="nothing-outside-the-input-or-inside-the-zone"),
+                  cl("forall([i, (x, Real)], implies(pt(x) and 0 <= i and i < len(result) and result[i].start <= x and x <= result[i].end, "
+                     "not zone(x) and exists(j, 0, len(old(segments)), old(segments)[j].start <= x and x <= old(segments)[j].end)))", "C16",
+                     name="every-point-of-a-kept-piece-was-available-and-is-outside-the-zone"),
+                  cl("forall(i, 0, len(result), result[i].start < result[i].end)", "C16", name="segments-well-formed")],
          loops={"L0": dict(match="while len(segments) > 0", variant="len(segments)",
                            inv=["len(segments) <= len(old(segments))",
                                 "forall(i, 0, len(segments), segments[i] == old(segments)[i])",
                                 # processed so far: old(segments)[len(segments):]
-                                cl("forall([(x, Real)], implies(cover(new_segments, x) and not edge(x), not zone(x) and "
+                                cl("forall([(x, Real)], implies(cover(new_segments, x), not zone(x) and "
                                    "exists(i, len(segments), len(old(segments)), old(segments)[i].start <= x and x <= old(segments)[i].end)))",
                                    name="only-kept-points"),
                                 cl("forall([(x, Real), i], implies(len(segments) <= i and i < len(old(segments)) and not edge(x) and "
                                    "not zone(x) and old(segments)[i].start <= x and x <= old(segments)[i].end, cover(new_segments, x)))",
                                    name="all-kept-points"),
-                                "forall(i, 0, len(new_segments), new_segments[i].start <= new_segments[i].end)"])},
+                                "forall(i, 0, len(new_segments), new_segments[i].start < new_segments[i].end)"])},
          hooks=[
              # witnesses for the existential `cover`: what was covered stays covered after an append, and the appended
              # piece is covered
@@ -96,3 +106,111 @@ contract(F + "StatisticalContinuumSampler.sample_from_continuum",
                 ("before", "for _ in range(nb_units): ...",
                  "assert nb_units >= 1 or exists([(a, Real), (u, Unit)], Us(new_continnum)[a][u])")],
          serves={"C15", "C05", "C14"})
+
+# =========================================================================================================
+# ShuffleContinuumSampler.sample_from_continuum   (C16 W0-W4: every clause holds for EVERY draw)
+# =========================================================================================================
+SHUF = lambda: ObjT("ShuffleContinuumSampler", _reference_continuum=OptObjT(CONT()),       # noqa: E731
+                    _ground_truth_annotators=OptObjT(ObjT("SetStr")), _pivot_type=StrT())
+
+contract("pygamma_agreement/continuum.py::Continuum.avg_length_unit", params={"self": CONT()}, returns=RealT(), is_property=True,
+         macros=VIEW_MACROS, modifies=[], trusted=True,
+         requires=["RI(self)", "NumUnits(self) >= 1"],
+         ensures=[cl("result > 0", "C16", name="a-mean-of-positive-durations")],
+         notes="ASSUMED observer (generator-expression sum over the continuum's own iterator): the mean of durations that RI makes > 1e-6 "
+               "is positive; only its sign is used (the exclusion distance is positive)",
+         serves={"C16"})
+
+contract(F + "ShuffleContinuumSampler._random_from_segments",
+         params={"self": SHUF(), "segments": ListOf(SegT())}, returns=RealT(), modifies=[], macros=COVER[:1], trusted=True,
+         requires=["len(segments) >= 1", "forall(i, 0, len(segments), segments[i].start < segments[i].end)"],
+         ensures=[cl("pt(result) and implies(self._pivot_type == 'float_pivot', cover(segments, result))", "C16", name="float-pivot-lies-in-an-available-segment"),
+                  cl("implies(self._pivot_type == 'int_pivot', isint(result))", "C16", name="int-pivot-is-a-whole-number")],
+         notes="ASSUMED (RNG model: np.random.choice returns one of the segments - every weight is positive under the requires, so the "
+               "ValueError fallback `return 1` is not reachable - and np.random.uniform a point of it; int() gives a whole number)",
+         serves={"C16"})
+
+SHUF_MACROS = VIEW_MACROS + COVER[:1] + [
+    Macro("ref", [], "some(self._reference_continuum)"), Macro("GT", [], "some(self._ground_truth_annotators)"),
+    Macro("T", [], "new_continuum"),
+    Macro("name", ["i"], "fstr('Sampled_annotation {}', i)"),
+    Macro("dist", [], "min_dist_between_pivots"),
+    # the unit u of the reference shifted by the pivot p, wrapped around by the continuum's length when it would start beyond the upper bound
+    Macro("wraps", ["u", "p"], "u.s + p > ref().bound_sup"),
+    Macro("shifted", ["u", "p", "v"],
+          "v.haslab == u.haslab and v.lab == u.lab and "
+          "v.s == u.s + p + ite(wraps(u, p), ref().bound_inf - ref().bound_sup, 0) and "
+          "v.e == u.e + p + ite(wraps(u, p), ref().bound_inf - ref().bound_sup, 0)"),
+    # annotator i of the sample carries exactly the shifted units of its ground-truth annotator GA[i]
+    Macro("copy_of", ["X", "i"], "members(GT())[GA[i]] and forall([(v, Unit)], Us(X)[name(i)][v] == "
+                                 "exists([(u, Unit)], Us(ref())[GA[i]][u] and shifted(u, PIV[i], v)))"),
+    Macro("annots_upto_or_more", ["k"], "forall(i, 0, k, Ann(T())[name(i)]) and "
+                                        "forall([(a, Real)], implies(Ann(T())[a], exists(i, 0, size(GT()), a == name(i))))"),
+    Macro("annots_upto", ["X", "n"], "forall([(a, Real)], Ann(X)[a] == exists(i, 0, n, a == name(i)))"),
+    Macro("separated_upto", ["n"], "forall(i, 0, n, forall(j, i + 1, n, implies(DRAWN[j] and self._pivot_type == 'float_pivot', "
+                                   "PIV[j] - PIV[i] >= dist() or PIV[i] - PIV[j] >= dist())))"),
+    Macro("avail_ok", ["n"], "forall(k, 0, len(segments_available), segments_available[k].start < segments_available[k].end) and "
+                             "forall([k, (x, Real)], implies(pt(x) and 0 <= k and k < len(segments_available) and segments_available[k].start <= x and "
+                             "x <= segments_available[k].end, ref().bound_inf <= x and x <= ref().bound_sup and "
+                             "forall(i, 0, n, x - PIV[i] >= dist() or PIV[i] - x >= dist())))"),
+]
+
+contract(F + "ShuffleContinuumSampler.sample_from_continuum",
+         params={"self": SHUF()}, returns=CONT(), is_property=True, modifies=[], macros=SHUF_MACROS,
+         ghost_vars={"GA": ("AReal", None), "PIV": ("AReal", None), "DRAWN": ("ABool", None)},
+         requires=["not isnone(self._ground_truth_annotators)",
+                   "implies(not isnone(self._reference_continuum), RI(ref()) and NumUnits(ref()) >= 1 and ref().bound_inf < ref().bound_sup and "
+                   "forall([(a, Real)], implies(members(GT())[a], Ann(ref())[a])))",
+                   "self._pivot_type == 'float_pivot' or self._pivot_type == 'int_pivot'"],
+         raises={"AssertionError": {"iff": "isnone(self._reference_continuum)"}},
+         ensures=[cl("fresh_obj(result) and disjoint_state(result, ref())", "C16 C14", name="fresh"),
+                  cl("exists([(a, Real), (u, Unit)], Us(result)[a][u])", "C16 C05", name="W0-non-empty"),
+                  cl("annots_upto(result, size(GT()))", "C16 C05", name="W1-one-annotator-per-ground-truth-annotator"),
+                  cl("forall(i, 0, size(GT()), copy_of(result, i))", "C16", name="W2-each-a-shifted-wrapped-copy-of-a-ground-truth-annotator"),
+                  cl("forall(i, 0, size(GT()), implies(DRAWN[i] and self._pivot_type == 'float_pivot', "
+                     "ref().bound_inf <= PIV[i] and PIV[i] <= ref().bound_sup))", "C16", name="W3-pivots-within-the-bounds"),
+                  cl("separated_upto(size(GT()))", "C16", name="W4-pivots-at-least-half-the-average-unit-length-apart"),
+                  cl("forall(i, 0, size(GT()), implies(DRAWN[i] and self._pivot_type == 'int_pivot', isint(PIV[i])))", "C16",
+                     name="W5-integer-pivots-are-whole-numbers"),
+                  cl("RI(result)", "C16 C05", name="valid-continuum")],
+         loops={"L0": dict(match="while not new_continuum", modifies=["new_continuum"],
+                           inv=["RI(T())", "forall([(a, Real), (u, Unit)], not Us(T())[a][u]) or "
+                                           "(annots_upto(T(), size(GT())) and forall(i, 0, size(GT()), copy_of(T(), i)) and "
+                                           " separated_upto(size(GT())) and forall(i, 0, size(GT()), implies(DRAWN[i], "
+                                           " implies(self._pivot_type == 'int_pivot', isint(PIV[i])) and implies(self._pivot_type == 'float_pivot', "
+                                           " ref().bound_inf <= PIV[i] and PIV[i] <= ref().bound_sup))))",
+                                "forall([(a, Real)], implies(Ann(T())[a], exists(i, 0, size(GT()), a == name(i))))"]),
+                "L0.0": dict(match="for idx in range(len(annotators))", modifies=["new_continuum"],
+                             inv=["RI(T())", "annots_upto_or_more(idx)", "forall(i, 0, idx, copy_of(T(), i))",
+                                  "forall(i, idx, size(GT()), forall([(v, Unit)], not Us(T())[name(i)][v]))",
+                                  "separated_upto(idx)", "avail_ok(idx)",
+                                  "forall(i, 0, idx, implies(DRAWN[i], implies(self._pivot_type == 'int_pivot', isint(PIV[i])) and "
+                                  "implies(self._pivot_type == 'float_pivot', ref().bound_inf <= PIV[i] and PIV[i] <= ref().bound_sup)))",
+                                  "forall(i, 0, idx, implies(not DRAWN[i], len(segments_available) == 0))"]),
+                "L0.0.0": dict(match="for unit in continuum.iter_annotator(rnd_annotator)", index="jU", modifies=["new_continuum"],
+                               inv=["RI(T())", "annots_upto_or_more(idx + 1)", "forall(i, 0, idx, copy_of(T(), i))",
+                                    "forall(i, idx + 1, size(GT()), forall([(v, Unit)], not Us(T())[name(i)][v]))",
+                                    "forall([(v, Unit)], Us(T())[name(idx)][v] == exists([(u, Unit)], Us(ref())[rnd_annotator][u] and "
+                                    "Uidx(ref())[rnd_annotator][u] < jU and shifted(u, pivot, v)))"])},
+         hooks=[("before", "while not new_continuum: ...", "model_inv wfmap(ref())"),
+                ("before", "return new_continuum", "model_inv wfmap(new_continuum)"),
+                ("before", "return new_continuum", "assert exists(k, 0, Nkeys(T()), Cnt(T())[Kseq(T())[k]] >= 1)"),
+                ("before", "segments_available = [...", "model_inv wfmap(new_continuum)"),
+                ("before", "segments_available = [...", "assert forall([(a, Real), (u, Unit)], not Us(T())[a][u])"),
+                ("after", "segments_available = self._remove_pivot_segment(...",
+                 "assert forall(k, 0, len(segments_available), segments_available[k].start < segments_available[k].end) and "
+                 "forall([k, (x, Real)], implies(pt(x) and 0 <= k and k < len(segments_available) and segments_available[k].start <= x and "
+                 "x <= segments_available[k].end, ref().bound_inf <= x and x <= ref().bound_sup and "
+                 "(x - pivot >= dist() or pivot - x >= dist()) and forall(i, 0, idx, x - PIV[i] >= dist() or PIV[i] - x >= dist())))"),
+                ("after", "for unit in continuum.iter_annotator(rnd_annotator): ...", "assert forall(i, 0, idx, copy_of(T(), i))"),
+                ("after", "for unit in continuum.iter_annotator(rnd_annotator): ...",
+                 "assert forall([(u, Unit)], implies(Us(ref())[rnd_annotator][u], Uidx(ref())[rnd_annotator][u] < Cnt(ref())[rnd_annotator]))"),
+                ("after", "for unit in continuum.iter_annotator(rnd_annotator): ...", "assert copy_of(T(), idx)"),
+                # a Unit is determined by its four fields: there is one shifted image of a unit
+                ("before", "while not new_continuum: ...",
+                 "assert forall([(u, Unit), (p, Real), (v1, Unit), (v2, Unit)], implies(shifted(u, p, v1) and shifted(u, p, v2), v1 == v2))"),
+                ("after", "pivot: float = ...", "DRAWN = store(DRAWN, idx, True)"),
+                ("after", "pivot = ...", "DRAWN = store(DRAWN, idx, False)"),
+                ("after", "rnd_annotator = ...", "GA = store(GA, idx, rnd_annotator)"),
+                ("after", "rnd_annotator = ...", "PIV = store(PIV, idx, pivot)")],
+         serves={"C16", "C05", "C14"})
